@@ -40,8 +40,8 @@ class C18(Prop):
             [('DerefMut', None), ('Deref', ([], False))],
         ]
         for ft, named, style, (ti, tl), mode in itertools.product(
-                FIELD_TYPES, [False, True], [0, 1, 2], enumerate(trait_lists), ['attr', 'derive']):
-            if style > 0 and 'T' not in ft.needs:
+                FIELD_TYPES, [False, True], [0, 1, 2, 3], enumerate(trait_lists), ['attr', 'derive']):
+            if style > 0 and 'T' not in ft.needs and not (style == 3 and 'N' in ft.needs):
                 continue
             it, names = mk_struct([ft], named, style, vis_i=ti, raw=(named and ti in (1, 2)),
                                   extra_attrs=[sx.a_other(FOREIGN_ATTRS[ti % len(FOREIGN_ATTRS)])])
